@@ -66,6 +66,10 @@ def headroom_trace(draw):
     if spec["market_type"] == "PLACE":
         spec["number_of_winners"] = 2 if nr > 2 else 1
     spec["bsp_market"] = draw(st.integers(0, 5)) > 0
+    # directed variant: an odds-on BACK starting-price order is reconciled, then a further BACK is requested in-play
+    odds_on_sp = draw(st.integers(0, 5)) == 0
+    if odds_on_sp:
+        spec["bsp_market"] = True
     spec["persistence_enabled"] = True
     lim = draw(st.sampled_from([25, 40, 100]))
     strat = {"name": "S0", "client": 0, "max_order_exposure": draw(st.sampled_from([None, lim, 100])),
@@ -76,9 +80,9 @@ def headroom_trace(draw):
     if draw(st.integers(0, 3)) == 0:
         cfg_["config"] = {"simulated_strategy_isolation": False}
     prices = world.ladder_prices(spec)
-    mid = draw(st.integers(45, 180))
+    mid = draw(st.integers(45, 180)) if not odds_on_sp else draw(st.integers(12, 60))
     r = draw(st.integers(0, nr - 1))
-    side = draw(st.sampled_from(["LAY", "LAY", "BACK"]))
+    side = draw(st.sampled_from(["LAY", "LAY", "BACK"])) if not odds_on_sp else "BACK"
     # a lay rests below the market, a back above it
     tick = mid - draw(st.integers(8, 30)) if side == "LAY" else mid + draw(st.integers(8, 30))
     price = prices[tick]
@@ -93,11 +97,22 @@ def headroom_trace(draw):
                 "pers": pers_ or pers, "trade": "new"}
 
     tick_ = {"_": "book", "dt": 1000, "rc": []}
+    first = place(draw(st.sampled_from([0.9, 0.95, 0.6])))
+    sp_first = odds_on_sp or (spec["bsp_market"] and draw(st.integers(0, 3)) == 0)
+    if sp_first:
+        # the first order is a starting-price order (its liability is the amount at risk whatever the side)
+        first = {"_": "req", "op": "place", "si": 0, "r": r, "side": side, "type": draw(st.sampled_from(["MOC", "LOC"])) if not odds_on_sp else "MOC", "tick": tick,
+                 "liability": round(lim * draw(st.sampled_from([0.6, 0.8, 0.95])), 2), "trade": "new"}
     trace = [{"cfg": cfg_},
              {"_": "book", "dt": 1000, "rc": [{"r": r, "atb": [[mid - 2, 50.0]], "atl": [[mid + 2, 50.0]]}]},
-             place(draw(st.sampled_from([0.9, 0.95, 0.6]))), tick_]
+             first, tick_]
     for _ in range(draw(st.integers(1, 3))):
-        k = draw(st.integers(0, 5))
+        k = draw(st.integers(0, 6))
+        if k == 6 and not sp_first:
+            # part of the resting order trades, then the remainder is re-priced (a replacement order of the remaining size)
+            trace += [{"_": "book", "dt": 1000, "rc": [{"r": r, "trd": [[tick, round(sized(0.9) * draw(st.sampled_from([0.4, 1.0, 1.4])), 2)]]}]},
+                      {"_": "req", "op": "replace", "si": 0, "o": 0, "pool": "exec", "ticks": draw(st.sampled_from([-2, -1, 1, 2]))}, tick_]
+            continue
         if k <= 2:
             trace += [{"_": "req", "op": "cancel", "red": draw(st.sampled_from([0.3, 0.5, 0.8])), "si": 0, "o": draw(st.sampled_from([0, -1])), "pool": "any"}, tick_]
         elif k == 3:
@@ -109,8 +124,11 @@ def headroom_trace(draw):
     sp_tick = tick + draw(st.sampled_from([0, 0, -6, 6]))
     bsp = [round(prices[mid], 2)] * nr
     bsp[r] = round(prices[sp_tick], 2)
-    trace += [{"_": "inplay", "dt": 1000, "bet_delay": 1, "status": "OPEN", "bump": True, "bsp": bsp}, tick_,
-              {"_": "suspend", "dt": 1000, "bump": True}]
+    trace += [{"_": "inplay", "dt": 1000, "bet_delay": 1, "status": "OPEN", "bump": True, "bsp": bsp}, tick_]
+    if odds_on_sp or draw(st.booleans()):
+        # a further order once the starting price has been reconciled (in-play; the earlier orders are acknowledged)
+        trace += [place(draw(st.sampled_from([0.3, 0.5, 0.8])), "PERSIST"), tick_, tick_, tick_]
+    trace += [{"_": "suspend", "dt": 1000, "bump": True}]
     results = ["LOSER"] * nr
     results[r] = draw(st.sampled_from(["WINNER", "LOSER"]))
     if "WINNER" not in results:
